@@ -2,6 +2,7 @@ import GdcVerif.Driver.Util
 import GdcVerif.Model.JpegLossless
 import GdcVerif.Model.JpegLosslessScan
 import GdcVerif.Model.OptimalHuffman
+import GdcVerif.Model.JpegLosslessStream
 /-!
   Driver ops of the JPEG Lossless / SV1 work package (kernel level).
     jll-pred p ra rb rc                      → ok v            Gen.Predictor
@@ -74,6 +75,12 @@ def scanDec (sv1 : Bool) (p pred w h nc bits vals scan : String) : String :=
       let s ← decodeScan sv1 p pred w h nc t (hexToBytes scan)
       samplesToPixels p w h nc s)
   | _, _ => "bad-op"
+
+def streamDec (sv1 : Bool) (hx : String) : String :=
+  match JLL.Stream.decode sv1 (hexToBytes hx) with
+  | .ok (pix, w, h, nc, p) => s!"ok {w} {h} {nc} {p} " ++ bytesToHex pix
+  | .err => "err"
+  | .panic => "panic"
 
 def step? : List String → Option String
   | ["jll-pred", p, ra, rb, rc] =>
@@ -148,6 +155,16 @@ def step? : List String → Option String
       | .err => "err"
       | .panic => "panic"
     | _, _ => "bad-op"
+  | ["jll-stream-enc", w, h, nc, p, pred, pix] =>      -- lossless.Encode → ok hex | err | panic
+    some <| match nats? [w, h, nc, p, pred] with
+    | some [w, h, nc, p, pred] => outStr (JLL.Stream.encode false (hexToBytes pix).toArray w h nc p pred)
+    | _ => "bad-op"
+  | ["sv1-stream-enc", w, h, nc, p, pix] =>            -- lossless14sv1.Encode
+    some <| match nats? [w, h, nc, p] with
+    | some [w, h, nc, p] => outStr (JLL.Stream.encode true (hexToBytes pix).toArray w h nc p 1)
+    | _ => "bad-op"
+  | ["jll-stream-dec", hx] => some (streamDec false hx)  -- lossless.Decode → ok w h nc P hex | err | panic
+  | ["sv1-stream-dec", hx] => some (streamDec true hx)
   | ["jll-scan-enc", p, pred, w, h, nc, bits, vals, pix] => some (scanEnc false p pred w h nc bits vals pix)
   | ["sv1-scan-enc", p, w, h, nc, bits, vals, pix] => some (scanEnc true p "1" w h nc bits vals pix)
   | ["jll-scan-dec", p, pred, w, h, nc, bits, vals, scan] => some (scanDec false p pred w h nc bits vals scan)
